@@ -205,11 +205,18 @@ package rapid
 // is not held when control returns.
 //@ define relyUser(t) = implies(old(t.failed) != "", t.failed != "") && len(t.cleanups) >= old(len(t.cleanups)) && (arr(t.cleanups) == old(arr(t.cleanups)) || fresh(arr(t.cleanups))) && implies(old(t.ctx) != nil, t.ctx == old(t.ctx) && t.cancelCtx == old(t.cancelCtx)) && (t.ctx == nil) == (t.cancelCtx == nil) && implies(t.cancelCtx != nil, ctxOf[t.cancelCtx] == t.ctx) && lockmode[addr(t.mu)] == 0 && t.cleaning.v == old(t.cleaning.v)
 
+// What a run of user code can do to a buffer-backed stream (only through drawBits/beginGroup/endGroup, whose
+// concrete contracts are proved in data.go): the unread buffer is a suffix of the old one, and on a persisting
+// stream every newly recorded word is the masked - hence not larger - word it consumed; groups stay well-formed.
+//@ define recWF(r) = 0 <= r.dataLen && forall(k, 0, len(r.groups), 0 <= r.groups[k].begin && r.groups[k].begin <= len(r.data) && (r.groups[k].end == -1 || r.groups[k].begin <= r.groups[k].end && r.groups[k].end <= len(r.data)) && implies(r.groups[k].discard, r.groups[k].end >= 0))
+//@ define bufRun(s) = arr(s.buf) == old(arr(s.buf)) && off(s.buf) + len(s.buf) == old(off(s.buf) + len(s.buf)) && len(s.buf) <= old(len(s.buf)) && s.persist == old(s.persist) && implies(s.persist, len(s.data) - old(len(s.data)) == old(len(s.buf)) - len(s.buf) && forall(k, old(len(s.data)), len(s.data), s.data[k] <= old(s.buf[k - len(s.data)])) && forall(k, 0, old(len(s.data)), s.data[k] == old(s.data[k])))
+//@ define streamRely(x) = implies(hasType(x, bufBitStream), recWF(deref(x, bufBitStream)) && bufRun(deref(x, bufBitStream)))
+
 //@ callback func(*T)
 //@   params fn, t
 //@   requires [C14] unlocked(t)
-//@   ensures drawn >= old(drawn) && relyUser(t)
-//@   panics any: drawn >= old(drawn) && relyUser(t)
+//@   ensures drawn >= old(drawn) && relyUser(t) && streamRely(t.s)
+//@   panics any: drawn >= old(drawn) && relyUser(t) && streamRely(t.s)
 //@   modifies drawn, t.failed, t.cleanups, elems(t.cleanups), t.ctx, t.cancelCtx, t.draws, stream(t.s)
 
 //@ callback func(*T) V
@@ -554,6 +561,7 @@ package rapid
 //@   ensures [C02,C11] implies(result != nil && isInvalidData(result.data), t.failed == "")
 //@   ensures [C02] implies(result != nil, fresh(result))
 //@   ensures drawn >= old(drawn)
+//@   ensures [C05] streamRely(t.s)
 //@   modifies t.failed, t.cleanups, elems(t.cleanups), t.ctx, t.cancelCtx, t.cleaning.v, t.draws, drawn, lockmode[addr(t.mu)], stream(t.s)
 
 // ---------------------------------------------------------------------------------------------
@@ -826,3 +834,29 @@ package rapid
 //@   ensures [C05,C12] result <= u
 //@   modifies heap, drawn, lockmode, cancelled
 //@   loop 0 invariant [C12] i <= 5 && i <= u && forallu(y, implies(y < i, !condP(y)))
+
+//@ func newBufBitStream
+//@   ensures [C04,C05] fresh(result) && arr(result.buf) == arr(buf) && off(result.buf) == off(buf) && len(result.buf) == len(buf)
+//@   ensures [C04,C05] len(result.data) == 0 && len(result.groups) == 0 && result.dataLen == 0 && result.persist == persist && arr(result.data) == nil
+
+// prune/removeGroup: only ever delete words (C05 needs no more than that; the exact sequence spec is C04's)
+//@ func (*recordedBits).removeGroup
+//@   requires [C04,C05] 0 <= i && i < len(rec.groups) && recWF(rec) && rec.groups[i].end >= 0
+//@   ensures [C04,C05] len(rec.data) == old(len(rec.data)) - (old(rec.groups[i].end) - old(rec.groups[i].begin)) && len(rec.data) <= old(len(rec.data))
+//@   ensures [C04,C05] implies(len(rec.data) == old(len(rec.data)), forall(k, 0, len(rec.data), rec.data[k] == old(rec.data[k])))
+//@   ensures [C04,C05] len(rec.groups) < old(len(rec.groups)) && rec.persist == old(rec.persist)
+//@   ensures [assumed] recWF(rec)
+//@   modifies rec.data, rec.groups, elems(rec.data), elems(rec.groups)
+//@   loop 0 invariant [C04,C05] i < j && j <= len(rec.groups)
+//@   loop 1 invariant [C04,C05] -1 <= rangeindex && rangeindex < len(rec.groups)
+//@   loop 0 decreases len(rec.groups) - j
+
+//@ func (*recordedBits).prune
+//@   requires [C04,C05] rec.persist && recWF(rec)
+//@   ensures [C04,C05] len(rec.data) <= old(len(rec.data)) && implies(len(rec.data) == old(len(rec.data)), forall(k, 0, len(rec.data), rec.data[k] == old(rec.data[k])))
+//@   ensures [C04,C05] recWF(rec) && rec.persist
+//@   panics string [C04]: true
+//@   modifies rec.data, rec.groups, elems(rec.data), elems(rec.groups)
+//@   loop 0 invariant [C04,C05] 0 <= i && recWF(rec) && rec.persist && len(rec.data) <= old(len(rec.data)) && implies(len(rec.data) == old(len(rec.data)), forall(k, 0, len(rec.data), rec.data[k] == old(rec.data[k])))
+//@   loop 0 decreases len(rec.groups) - i
+//@   loop 1 invariant [C04,C05] -1 <= rangeindex && rangeindex < len(rec.groups)
